@@ -140,7 +140,29 @@ func (c *collector) record(caseJSON []byte, v *Verdict) {
 }
 
 // Flush writes the shard file named by VERIF_SHARD_OUT (if set).
+// RegisterCleanup registers a function run at the end of every Check (temporary directories of the harness).
+func RegisterCleanup(f func()) {
+	cleanupMu.Lock()
+	cleanups = append(cleanups, f)
+	cleanupMu.Unlock()
+}
+
+var (
+	cleanupMu sync.Mutex
+	cleanups  []func()
+)
+
+func runCleanups() {
+	cleanupMu.Lock()
+	fs := append([]func(){}, cleanups...)
+	cleanupMu.Unlock()
+	for _, f := range fs {
+		f()
+	}
+}
+
 func Flush() {
+	defer runCleanups()
 	out := os.Getenv("VERIF_SHARD_OUT")
 	if out == "" {
 		return
